@@ -223,8 +223,15 @@ class Trace:
                                                                     'too_many_deposits',
                                                                     'deposit_outside_ingest')
                              for v in self.viol))
+        live_moves = sum(1 for m in self.moves if m.get('t_exit') is None)
+        if live_moves > getattr(self, 'max_live_moves', 0):
+            self.max_live_moves = live_moves
         if bs['cold_free'] < -EPS or bs['cold_free'] > sp['cold_capacity'] + EPS:
-            self.violate('C07', 'cold_bounds', free=bs['cold_free'], total=sp['cold_capacity'])
+            # mechanism predicate: were two tier moves in flight at once (the tiers keep a
+            # single 'transfer' marker for the data still to arrive)?
+            self.violate('C07', 'cold_bounds', free=bs['cold_free'], total=sp['cold_capacity'],
+                         below_zero=bool(bs['cold_free'] < -EPS),
+                         concurrent_move_in_flight=getattr(self, 'max_live_moves', 0) >= 2)
         sh = sum(self.H.values())
         sc = sum(self.C.values())
         if abs(hu - sh) > 1e-6:
